@@ -309,6 +309,11 @@ class PeerBase:
     def kexinit_packet(self):
         return wire.packet(wire.kexinit_payload(self.script['kex']))
 
+    def reply_chatter(self):
+        """script['reply_debug'] = N: N SSH_MSG_DEBUG packets (allowed at any time, RFC 4253 section 11.3) in front of every key-exchange reply and group-exchange group."""
+        n = self.script.get('reply_debug', 0)
+        return b''.join(wire.packet(bytes([wire.MSG_DEBUG]) + b'\x00' + wire.string('debug message %d' % i) + wire.string('')) for i in range(n))
+
     def hostkey_for(self, name):
         hk = self.script.get('hostkeys', {})
         if name in hk:
@@ -337,7 +342,7 @@ class PeerBase:
                     raise _Abort()
                 blob = wire.key_blob(spec, b'')
                 self.log('hostkey-presented', c.idx, hostkey=want, blob=blob.hex() if len(blob) < 4000 else None, facts=wire.blob_facts(blob) if spec.get('type') != 'raw' else None)
-                self.send(c, 'kexreply', wire.packet(wire.kex_reply(wire.MSG_KEXDH_REPLY, blob)))
+                self.send(c, 'kexreply', self.reply_chatter() + wire.packet(wire.kex_reply(wire.MSG_KEXDH_REPLY, blob)))
             elif t == wire.MSG_GEX_REQUEST:
                 if len(payload) != 13:
                     self.log('gex-request-bad', c.idx, n=len(payload))
@@ -357,12 +362,12 @@ class PeerBase:
                 if (self.script.get('gex') or {}).get('top_ones'):
                     # like the RFC 2409 / RFC 3526 groups: the leading 64 bits are all ones
                     p |= ((1 << 64) - 1) << (ans - 64)
-                self.send(c, 'gexgroup', wire.packet(wire.gex_group(p)))
+                self.send(c, 'gexgroup', self.reply_chatter() + wire.packet(wire.gex_group(p)))
             elif t == wire.MSG_GEX_INIT:
                 self.log('gex-init', c.idx, n=len(payload))
                 want = c.client_kex['key'][0].decode('latin-1') if c.client_kex and c.client_kex['key'] else ''
                 spec = self.hostkey_for(want) or {'type': 'ed25519'}
-                self.send(c, 'gexreply', wire.packet(wire.kex_reply(wire.MSG_GEX_REPLY, wire.key_blob(spec, b''))))
+                self.send(c, 'gexreply', self.reply_chatter() + wire.packet(wire.kex_reply(wire.MSG_GEX_REPLY, wire.key_blob(spec, b''))))
             else:
                 self.log('other-packet', c.idx, type=t)
 
